@@ -777,7 +777,23 @@ fn c19(args: &[String]) {
     println!("STAT histories={total} alphabet={} depth={depth}", alpha.len());
 }
 
+struct SinkLogger;
+impl log::Log for SinkLogger {
+    fn enabled(&self, _: &log::Metadata) -> bool {
+        true
+    }
+    fn log(&self, r: &log::Record) {
+        let s = format!("{}", r.args());
+        std::hint::black_box(s);
+    }
+    fn flush(&self) {}
+}
+static SINK: SinkLogger = SinkLogger;
+
 fn main() {
+    // the library's log macros are compiled in (default log level): evaluate their arguments like a real logger would
+    let _ = log::set_logger(&SINK);
+    log::set_max_level(log::LevelFilter::Trace);
     let args: Vec<String> = std::env::args().collect();
     match args.get(1).map(String::as_str) {
         Some("c17") => c17(&args[2..]),
